@@ -56,6 +56,7 @@ class Contract:
         self.pre = ci.methods.get('pre')
         self.post = ci.methods.get('post')
         self.raises = ci.methods.get('raises')
+        self.axioms = ci.methods.get('axioms')      # definitional facts about ghosts: assumed when verifying, not obliged at call sites
 
     @property
     def short(self) -> str:
@@ -207,6 +208,15 @@ class Explorer:
         P.modular_calls[c.short] = P.modular_calls.get(c.short, 0) + 1
         bound = self.bind_target(P, info, args, kwargs)
         short = c.short
+        for p_, tstr in c.params.items():
+            # an object argument whose class is unrelated to the class the contract was verified for
+            a_ = bound.get(p_)
+            if isinstance(a_, SObj) and a_.cls is not None:
+                t_ = self.types.parse_str(tstr, info.module.name, info.cls)
+                alts_ = [x[1] for x in (t_[1] if t_[0] == 'union' else (t_,)) if x[0] == 'obj']
+                if alts_ and len(alts_) == len(t_[1] if t_[0] == 'union' else (t_,)) and not any(
+                        self.index.is_subclass(a_.cls, ci_) or self.index.is_subclass(ci_, a_.cls) for ci_ in alts_):
+                    P.oblige(f'pre@{short}[type:{p_}]', 'pre', False, {'arg_class': a_.cls.name})
         if c.pre is not None:
             for k, cond in self._call_spec(P, c.pre, bound).items():
                 cond = P.truthy(cond)
@@ -245,7 +255,13 @@ class Explorer:
             if needs_old:
                 extra['old'] = old
             for k, cond in self._call_spec(P, c.post, bound, extra).items():
-                P.assume(P.truthy(cond), fact=True)
+                cond = P.truthy(cond)
+                if cond is False:
+                    # e.g. same_obj(result, input): a modular result is always a fresh object.  Silently dropping
+                    # the path would make every later obligation vacuous.
+                    raise Unsupported(f'post[{k}] of {short} is identically false at a modular call site '
+                                      f'(results are fresh objects: state aliasing by content, not identity)')
+                P.assume(cond, fact=True)
         return None if is_init else result
 
     def field_type(self, ci, fld):
@@ -339,6 +355,9 @@ class Explorer:
         P.bound = bound
         if c.pre is not None:
             for k, cond in self._call_spec(P, c.pre, bound).items():
+                P.assume(P.truthy(cond), fact=True)
+        if c.axioms is not None:
+            for k, cond in self._call_spec(P, c.axioms, bound).items():
                 P.assume(P.truthy(cond), fact=True)
         needs_old = c.post is not None and 'old' in [a.arg for a in c.post.node.args.args]
         old = self.snapshot(bound) if needs_old or True else None
